@@ -303,7 +303,8 @@ def supplyDelta (bc : BCtx) (u : List Nat) (txs : List Tx) : Int :=
 def addBlock (fl : Flags) (bc : BCtx) (u : List Nat) (txs : List Tx) : BRes :=
   if !blockGenerateOk txs then .genErr
   else if !blockValidate fl bc u txs then .invalid
-  else if supplyDelta bc u txs != 0 then .supplyPanic
+  -- `check_total_supply` returns early while `has_total_supply_loaded` is false (a node without block 1)
+  else if bc.cx.vau && supplyDelta bc u txs != 0 then .supplyPanic
   else .accepted
 
 /-- accepted by block validation (what C01 quantifies over) -/
